@@ -75,6 +75,7 @@ struct AFont {
     /// HVAR / VVAR of the font (harness side; the Coq term carries the index maps only)
     hvar: Option<MetricsVar>,
     vvar: Option<MetricsVar>,
+    gvar: Option<GvarInfo>,
 }
 
 fn h40(b: &[u8]) -> u64 {
@@ -229,7 +230,7 @@ fn abstract_font(font: &FontRef) -> AFont {
         let m: BTreeMap<u32, u32> = l.iter().cloned().collect();
         f4_common.retain(|c, g| m.get(c) == Some(g));
     }
-    AFont { n, glyphs, has_hmtx, long, lsbs, cmap, cmap_ok, uvs, selectors, colr, f4_same, f4_common, hvar: metrics_var(font, b"HVAR", 3), vvar: metrics_var(font, b"VVAR", 4) }
+    AFont { n, glyphs, has_hmtx, long, lsbs, cmap, cmap_ok, uvs, selectors, colr, f4_same, f4_common, hvar: metrics_var(font, b"HVAR", 3), vvar: metrics_var(font, b"VVAR", 4), gvar: gvar_info(font) }
 }
 
 fn coq_glyph(g: &AG) -> String {
@@ -387,7 +388,16 @@ fn coq_obs_mvars(font_id: &str, af: &AFont, sub: &[u8]) -> String {
     clist(items.iter(), |x| x.clone())
 }
 
-fn coq_obs(r: &Result<Vec<u8>, String>, obs: &Option<Obs>, f4_same: bool, mvars: &str) -> String {
+/// observed gvar of the subset: flags word and offsets array as stored, next to the original's per-glyph lengths
+fn coq_obs_gvar(font_id: &str, af: &AFont, sub: &[u8]) -> String {
+    let (Some(_), Ok(sf)) = (&af.gvar, FontRef::new(sub)) else { return "None".into() };
+    match gvar_info(&sf) {
+        Some(gs) => format!("(Some ({}_GVAR, ({}, {})))", font_id, gs.flags, czlist(gs.raw_offsets.iter().map(|v| *v as i128))),
+        None => "None".into(),
+    }
+}
+
+fn coq_obs(r: &Result<Vec<u8>, String>, obs: &Option<Obs>, f4_same: bool, mvars: &str, gvar: &str) -> String {
     match (r, obs) {
         (Err(e), _) if e.starts_with("panic") => "OPanic".into(),
         (Err(_), _) => "OErr".into(),
@@ -396,7 +406,7 @@ fn coq_obs(r: &Result<Vec<u8>, String>, obs: &Option<Obs>, f4_same: bool, mvars:
             let g = copt(o.glyphs.as_ref().map(|v| clist(v.iter(), |g| coq_glyph(g))));
             let h = copt(o.hmtx.as_ref().map(|(k, v)| format!("({}, {})", k, coq_pairs(v))));
             let c4 = copt(f4_same.then(|| coq_pairs(&o.cmap4)));
-            format!("OOut {} {} {} {} {} {} {}", o.num_glyphs, g, h, coq_pairs(&o.cmap), cbool(o.cmap4_multi), c4, mvars)
+            format!("OOut {} {} {} {} {} {} {} {}", o.num_glyphs, g, h, coq_pairs(&o.cmap), cbool(o.cmap4_multi), c4, mvars, gvar)
         }
     }
 }
@@ -499,6 +509,127 @@ fn var_index(mv: &MetricsVar, k: usize, g: u32) -> Option<(u32, u32)> {
         Some(m) => m.get(g),
         None => Some((g >> 16, g & 0xFFFF)),
     }
+}
+
+// ------------------------------------------------------------------------------------------------
+// gvar: raw header / offsets / per-glyph data, and an inflater that pads per-glyph variation data so that
+// the retained size crosses the offset-format thresholds on real tuple data
+// ------------------------------------------------------------------------------------------------
+#[derive(Clone, Debug)]
+struct GvarInfo {
+    table: Vec<u8>,
+    axis_count: u16,
+    shared_count: u16,
+    shared_off: u32,
+    glyph_count: u16,
+    flags: u16,
+    data_off: u32,
+    /// offsets as stored (not yet multiplied by 2 for the short format)
+    raw_offsets: Vec<u32>,
+}
+impl GvarInfo {
+    fn offset(&self, i: usize) -> Option<usize> {
+        let v = *self.raw_offsets.get(i)? as usize;
+        Some(if self.flags & 1 == 1 { v } else { v * 2 })
+    }
+    /// bytes of the GlyphVariationData of glyph g (empty when there is none / out of range)
+    fn data(&self, g: u32) -> &[u8] {
+        let (Some(a), Some(b)) = (self.offset(g as usize), self.offset(g as usize + 1)) else { return &[] };
+        if b <= a {
+            return &[];
+        }
+        self.table.get(self.data_off as usize + a..self.data_off as usize + b).unwrap_or(&[])
+    }
+    fn shared_tuples(&self) -> &[u8] {
+        let n = 2 * self.axis_count as usize * self.shared_count as usize;
+        self.table.get(self.shared_off as usize..self.shared_off as usize + n).unwrap_or(&[])
+    }
+}
+
+fn gvar_info(font: &FontRef) -> Option<GvarInfo> {
+    let t = font.table_data(Tag::new(b"gvar"))?.as_bytes().to_vec();
+    let u16at = |o: usize| -> Option<u16> { Some(u16::from_be_bytes([*t.get(o)?, *t.get(o + 1)?])) };
+    let u32at = |o: usize| -> Option<u32> { Some(u32::from_be_bytes([*t.get(o)?, *t.get(o + 1)?, *t.get(o + 2)?, *t.get(o + 3)?])) };
+    let (axis_count, shared_count, shared_off, glyph_count, flags, data_off) = (u16at(4)?, u16at(6)?, u32at(8)?, u16at(12)?, u16at(14)?, u32at(16)?);
+    let mut raw_offsets = vec![];
+    for i in 0..=glyph_count as usize {
+        raw_offsets.push(if flags & 1 == 1 { u32at(20 + 4 * i)? } else { u16at(20 + 2 * i)? as u32 });
+    }
+    Some(GvarInfo { table: t, axis_count, shared_count, shared_off, glyph_count, flags, data_off, raw_offsets })
+}
+
+/// The same font with `pad(g)` zero bytes appended to the variation data of every glyph that has some
+/// (trailing bytes of a GlyphVariationData are never read), written with long offsets.
+fn inflate_gvar(bytes: &[u8], pad: &dyn Fn(u32) -> usize) -> Option<Vec<u8>> {
+    let font = FontRef::new(bytes).ok()?;
+    let gi = gvar_info(&font)?;
+    let mut data: Vec<u8> = vec![];
+    let mut offs: Vec<u32> = vec![0];
+    for g in 0..gi.glyph_count as u32 {
+        let d = gi.data(g);
+        if !d.is_empty() {
+            data.extend_from_slice(d);
+            data.extend(std::iter::repeat(0u8).take(pad(g)));
+        }
+        offs.push(data.len() as u32);
+    }
+    let shared = gi.shared_tuples().to_vec();
+    let mut t: Vec<u8> = gi.table[0..8].to_vec();
+    let offsets_len = 4 * (gi.glyph_count as usize + 1);
+    let shared_off = if shared.is_empty() { 0u32 } else { 20 + offsets_len as u32 };
+    t.extend_from_slice(&shared_off.to_be_bytes());
+    t.extend_from_slice(&gi.glyph_count.to_be_bytes());
+    t.extend_from_slice(&1u16.to_be_bytes());
+    t.extend_from_slice(&(20 + offsets_len as u32 + shared.len() as u32).to_be_bytes());
+    for o in &offs {
+        t.extend_from_slice(&o.to_be_bytes());
+    }
+    t.extend_from_slice(&shared);
+    t.extend_from_slice(&data);
+    let mut fb = write_fonts::FontBuilder::new();
+    for rec in font.table_directory.table_records() {
+        let tag = rec.tag();
+        if tag == Tag::new(b"gvar") {
+            fb.add_raw(tag, t.clone());
+        } else if let Some(d) = font.table_data(tag) {
+            fb.add_raw(tag, d.as_bytes().to_vec());
+        }
+    }
+    Some(fb.build())
+}
+
+/// inflated variants of a variable font: total variation data just below / above 0xFFFF and 0x1FFFE (uniform even
+/// padding), all padding on the last quarter of the glyphs (so that a high-gid subset alone exceeds 0x1FFFE), and odd
+/// per-glyph lengths
+fn inflated_variants(name: &str, bytes: &[u8]) -> Vec<(String, Vec<u8>)> {
+    let Ok(font) = FontRef::new(bytes) else { return vec![] };
+    let Some(gi) = gvar_info(&font) else { return vec![] };
+    let with_data: Vec<u32> = (0..gi.glyph_count as u32).filter(|g| !gi.data(*g).is_empty()).collect();
+    if with_data.len() < 3 {
+        return vec![];
+    }
+    let total: usize = with_data.iter().map(|g| gi.data(*g).len()).sum();
+    let mut out = vec![];
+    for target in [0xFFF0usize, 0x10020, 0x1FFE0, 0x20020] {
+        if target <= total {
+            continue;
+        }
+        let per = ((target - total) / with_data.len()) & !1;
+        let rest = (target - total - per * with_data.len()) & !1;
+        let last = *with_data.last().unwrap();
+        if let Some(b) = inflate_gvar(bytes, &|g| per + if g == last { rest } else { 0 }) {
+            out.push((format!("infl-{:#x}-{}", target, name), b));
+        }
+    }
+    let q = with_data[with_data.len() - with_data.len().div_ceil(4)..].to_vec();
+    let perq = ((0x24000usize / q.len()) + 2) & !1;
+    if let Some(b) = inflate_gvar(bytes, &|g| if q.contains(&g) { perq } else { 0 }) {
+        out.push((format!("infl-skewed-{}", name), b));
+    }
+    if let Some(b) = inflate_gvar(bytes, &|g| 1 + 2 * (g as usize % 3)) {
+        out.push((format!("infl-odd-{}", name), b));
+    }
+    out
 }
 
 // ------------------------------------------------------------------------------------------------
@@ -856,6 +987,59 @@ fn oracle(cx: &OracleCtx, req: &Req, res: &Result<Vec<u8>, String>, st: &mut Sta
     let settings_o = var_settings(&orig, &mut rng.clone());
     let sizes = [Size::unscaled(), Size::new(12.0), Size::new(17.5), Size::new(100.0)];
     let notdef_kept = req.flags & F_NOTDEF_OUTLINE != 0;
+    // gvar: header consistent, and every kept glyph has byte-for-byte the variation data of its original
+    // (klippa copies GlyphVariationData and the shared tuples verbatim) - exact and independent of any location
+    if let Some(go) = &af.gvar {
+        match gvar_info(&subf) {
+            None => {
+                if subf.table_data(Tag::new(b"gvar")).is_some() {
+                    report(st, None, "gvar of the subset cannot be read", json!(null));
+                    return;
+                }
+            }
+            Some(gs) => {
+                st.count("oracle.gvar_tables_checked");
+                st.count(if gs.flags & 1 == 1 { "branch.gvar_long_offsets" } else { "branch.gvar_short_offsets" });
+                let data_len = gs.table.len().saturating_sub(gs.data_off as usize);
+                let offs: Vec<usize> = (0..gs.raw_offsets.len()).map(|i| gs.offset(i).unwrap()).collect();
+                let mut why: Option<serde_json::Value> = None;
+                if gs.glyph_count as u32 != n_sub || gs.axis_count != go.axis_count || gs.shared_tuples() != go.shared_tuples() {
+                    why = Some(json!({"why": "gvar header / shared tuples differ", "glyph_count": gs.glyph_count, "num_glyphs": n_sub}));
+                } else if offs.first() != Some(&0) || offs.windows(2).any(|w| w[0] > w[1]) || offs.last() != Some(&data_len) {
+                    why = Some(json!({"why": "gvar offsets are not an ascending partition of the variation data", "flags": gs.flags, "last_offset": offs.last(), "data_length": data_len,
+                        "first_descent": offs.windows(2).position(|w| w[0] > w[1])}));
+                } else {
+                    let kept_new: BTreeMap<u32, u32> = spec_v.iter().map(|g| (newid(*g), *g)).collect();
+                    for ng in 0..n_sub {
+                        st.evaluations += 1;
+                        let expect: &[u8] = match kept_new.get(&ng) {
+                            Some(g) if !(ng == 0 && *g == 0 && !notdef_kept) => go.data(*g),
+                            _ => &[],
+                        };
+                        if gs.data(ng) != expect {
+                            why = Some(json!({"why": "variation data of a kept glyph is not the original's", "new": ng, "orig": kept_new.get(&ng), "subset_len": gs.data(ng).len(), "orig_len": expect.len(), "flags": gs.flags}));
+                            break;
+                        }
+                    }
+                }
+                if let Some(w) = why {
+                    // diagnosed classes: the format decision sums the data of the NEW glyph ids of the original, and the
+                    // short format is written without padding odd-length data
+                    let kept_lens: Vec<usize> = spec_v.iter().filter(|g| !(**g == 0 && !notdef_kept)).map(|g| go.data(*g).len()).collect();
+                    let actual: usize = kept_lens.iter().sum();
+                    let class = if gs.flags & 1 == 0 && actual > 0x1FFFE {
+                        Some("C17:gvar-format-decision-uses-new-gids")
+                    } else if gs.flags & 1 == 0 && kept_lens.iter().any(|l| l % 2 == 1) {
+                        Some("C17:gvar-short-offsets-odd-length-data")
+                    } else {
+                        None
+                    };
+                    report(st, class, "gvar of the subset does not preserve the kept glyphs' variation data", w);
+                    return;
+                }
+            }
+        }
+    }
     let mut checked = 0usize;
     let mut order: Vec<u32> = spec_v.clone();
     if order.len() > max_glyph_checks {
@@ -1527,6 +1711,36 @@ fn metrics_var_requests(af: &AFont, rng: &mut Rng, count: usize) -> Vec<Req> {
     out
 }
 
+/// LARGE subsets (size thresholds of gvar / glyf / loca / hmtx are crossed from both sides on real data):
+/// everything, and 90 / 75 / 50 % of the glyphs as a low gid range, a high gid range and a random choice, each under
+/// default flags, NO_HINTING, RETAIN_GIDS and NO_HINTING|RETAIN_GIDS|NOTDEF_OUTLINE
+fn large_requests(af: &AFont, rng: &mut Rng) -> Vec<Req> {
+    let n = af.n as u32;
+    let mut shapes: Vec<Vec<u32>> = vec![(0..n).collect()];
+    for pct in [90u32, 75, 50] {
+        let k = (n * pct / 100).max(1);
+        shapes.push((0..k).collect());
+        shapes.push((n - k..n).collect());
+        let all: Vec<u32> = (0..n).collect();
+        shapes.push(pick_subset(rng, &all, k as usize));
+    }
+    let mut out = vec![];
+    for (k, g) in shapes.into_iter().enumerate() {
+        // everything and the 90 % shapes under all four flag sets, the smaller ones under two (alternating)
+        let fl: &[u16] = if k < 4 {
+            &[0u16, F_NO_HINTING, F_RETAIN_GIDS, F_NO_HINTING | F_RETAIN_GIDS | F_NOTDEF_OUTLINE]
+        } else if k % 2 == 0 {
+            &[0u16, F_NO_HINTING | F_RETAIN_GIDS | F_NOTDEF_OUTLINE]
+        } else {
+            &[F_NO_HINTING, F_RETAIN_GIDS]
+        };
+        for flags in fl {
+            out.push(Req { gids: g.clone(), unis: vec![], flags: *flags, label: if k == 0 { "large-subset-everything" } else { "large-subset" } });
+        }
+    }
+    out
+}
+
 // ------------------------------------------------------------------------------------------------
 // shard writer (same shape as vh::CaseWriter, plus per-shard font definitions so that the abstract font
 // is written once per shard and not once per case)
@@ -1558,6 +1772,10 @@ impl Shards {
                 write!(def, ".\nDefinition {}_{} : mvar := {}", id, tag, coq_mvar(mv, af.n)).unwrap();
                 w += af.n * mv.maps.iter().filter(|m| m.is_some()).count() / 2;
             }
+        }
+        if let Some(g) = &af.gvar {
+            write!(def, ".\nDefinition {}_GVAR : list Z := {}", id, czlist((0..af.n as u32).map(|x| g.data(x).len() as i128))).unwrap();
+            w += af.n / 4;
         }
         self.fonts.push((id, def, w));
         self.fonts.len() - 1
@@ -1692,9 +1910,13 @@ fn main() {
     let mut run_font = |name: &str, bytes: &[u8], nreq: usize, model_cases: usize, st: &mut Stats, sh: &mut Shards, rng: &mut Rng| {
         let Ok(font) = FontRef::new(bytes) else { return };
         let af = abstract_font(&font);
-        let mut reqs = requests(&af, rng, nreq);
+        let inflated = name.starts_with("infl-");
+        let mut reqs = if inflated { vec![] } else { requests(&af, rng, nreq) };
         let n_plain = reqs.len();
-        if !name.starts_with("syn") {
+        if af.gvar.is_some() && !name.starts_with("syn") {
+            reqs.extend(large_requests(&af, rng));
+        }
+        if !name.starts_with("syn") && !inflated {
             let k = if thorough { 24 } else { 6 };
             reqs.extend(block_requests(&af, rng, k, k));
             reqs.extend(metrics_var_requests(&af, rng, if thorough { 160 } else { 40 }));
@@ -1711,7 +1933,7 @@ fn main() {
         } else {
             "static"
         };
-        st.count(&format!("fonts.{}", if name.starts_with("syn") { "synthetic" } else { kind }));
+        st.count(&format!("fonts.{}", if name.starts_with("syn") { "synthetic" } else if inflated { "inflated_gvar" } else { kind }));
         let cx = OracleCtx { name, af: &af, orig: bytes };
         for (i, req) in reqs.iter().enumerate() {
             let res = run_subset(bytes, req);
@@ -1752,7 +1974,15 @@ fn main() {
                     st.count("branch.unicodes_via_cmap_scan");
                 }
             }
-            let small = kept_raw_glyf_bytes(&font, &spec_closure(&af, req)) < 65536;
+            // the loca writer defects (known classes) fire only above 64 KiB of kept glyph data: panic in the short
+            // format, garbage in the long one - those outputs are outside the model; everything else is compared
+            let raw_big = kept_raw_glyf_bytes(&font, &spec_closure(&af, req)) >= 65536;
+            let loca_defect = raw_big
+                && match &res {
+                    Err(e) => e.contains("attempt to add with overflow"),
+                    Ok(b) => FontRef::new(b).ok().and_then(|f| f.head().ok().map(|h| h.index_to_loc_format() == 1)).unwrap_or(true),
+                };
+            let small = !loca_defect;
             if (i < model_cases || i >= n_plain) && model_font_ok && !small {
                 st.count("model.skipped_glyf_over_64k");
             }
@@ -1762,10 +1992,12 @@ fn main() {
             if unmodelled_err {
                 st.count("model.skipped_unmodelled_table_error");
             }
-            if (i < model_cases || i >= n_plain) && model_font_ok && small && !unmodelled_err {
+            let big_font_partial = af.n > 300 && req.label == "large-subset";
+            if (i < model_cases || i >= n_plain) && model_font_ok && small && !unmodelled_err && !big_font_partial {
                 let w = obs.as_ref().map(|o| o.num_glyphs + o.cmap.len() / 4).unwrap_or(1) + req.gids.len() / 4 + req.unis.len() / 4 + 4;
                 let mv = res.as_ref().map(|b| coq_obs_mvars(&format!("font_{}", fi), &af, b)).unwrap_or("[]".into());
-                sh.push(fi, req, coq_obs(&res, &obs, af.f4_same, &mv), w);
+                let gv = res.as_ref().map(|b| coq_obs_gvar(&format!("font_{}", fi), &af, b)).unwrap_or("None".into());
+                sh.push(fi, req, coq_obs(&res, &obs, af.f4_same, &mv, &gv), w);
             }
             st.sample(json!({"font": name, "request": req.label, "gids": req.gids.iter().take(8).collect::<Vec<_>>(), "unicodes": req.unis.iter().take(8).collect::<Vec<_>>(), "flags": req.flags,
                 "subset_num_glyphs": obs.as_ref().map(|o| o.num_glyphs), "impl": format!("{:?}", res.as_ref().map(|b| b.len()))}));
@@ -1791,6 +2023,21 @@ fn main() {
         };
         run_font(name, bytes, nreq, nmodel, &mut st, &mut sh, &mut rng);
     }
+    let mut inflated_done = 0;
+    // 1b. variable corpus fonts with their gvar inflated to the offset-format thresholds (large subsets only)
+    for (name, bytes) in &fonts {
+        let n = FontRef::new(bytes).map(|f| font_num_glyphs(&f)).unwrap_or(0);
+        if n > 300 || (!thorough && (n > 64 || inflated_done >= 3)) {
+            continue;
+        }
+        let variants = inflated_variants(name, bytes);
+        if !variants.is_empty() {
+            inflated_done += 1;
+        }
+        for (vname, vbytes) in variants {
+            run_font(&vname, &vbytes, 0, 0, &mut st, &mut sh, &mut rng);
+        }
+    }
     let t_corpus = t0.elapsed().as_secs_f64();
     // 2. synthetic boundary fonts
     let nsyn = if thorough { 6000 } else { 700 };
@@ -1814,7 +2061,7 @@ fn main() {
             st.evaluations += 1;
             st.count("request.f7-witness");
             let obs = res.as_ref().ok().and_then(|b| observe(b));
-            sh.push(fi, &req, coq_obs(&res, &obs, af.f4_same, "[]"), af.n);
+            sh.push(fi, &req, coq_obs(&res, &obs, af.f4_same, "[]", "None"), af.n);
             oracle(&cx, &req, &res, &mut st, &mut rng, false, 400);
         }
     }
